@@ -274,7 +274,8 @@ def py_signature(lang, csite, cdecl, what, chosen_left=""):
         return f"{lang}:*->*:bound-to-declaration-left-in-catch_clause-body"
     if what == "enclosing-class-member":
         return f"{lang}:scope-nested-in-class->*:bound-to-enclosing-class-member"
-    if "(global-stmt" in csite and cdecl == "module-declaration" and what == "enclosing-function-declaration":
+    if "(global-stmt" in csite and "(the-statement-itself)" not in csite and cdecl == "module-declaration" \
+            and what == "enclosing-function-declaration":
         return f"{lang}:function-body(global-stmt)->module-declaration:bound-to-enclosing-function-declaration"
     return f"{lang}:{csite}->{cdecl}:bound-to-{what}"
 
@@ -597,6 +598,12 @@ def js_prepare_text(text, meta, outputs):
         site, decl, csite, cdecl = js_kinds(meta, d["scope"], v)
         occ[f"a{c}"] = {"kind": "write", "name": d["name"], "line": d["line"], "scope": d["scope"], "var": v, "const": c,
                         "site": site + "(declaration-site)", "decl": decl, "csite": csite + "(declaration-site)", "cdecl": cdecl}
+    for sid_, fs in meta["scopes"].items():
+        if fs.get("style") in ("expr", "arrow"):
+            v = ("func", int(sid_))
+            site, decl, csite, cdecl = js_kinds(meta, fs["parent"], v)
+            occ[f"d{sid_}"] = {"kind": "fdecl", "name": fs["name"], "line": fs["line"], "scope": fs["parent"], "var": v,
+                               "site": site + "(declaration-site)", "decl": decl, "csite": csite + "(declaration-site)", "cdecl": cdecl}
     for ctag, c in meta["calls"].items():
         vals = obs.get(ctag)
         v = "?"
@@ -748,6 +755,9 @@ def judge_js_program(prog, view, s2, lang="javascript"):
         if o["kind"] == "write":
             hits = [r for r in view.by_id.values() if r.get("operation") == "assign_stmt" and r.get("target") == o["name"]
                     and str(r.get("operand")) == str(o["const"])]
+        elif o["kind"] == "fdecl":
+            hits = [r for r in view.by_id.values() if r.get("operation") == "assign_stmt" and r.get("target") == o["name"]
+                    and str(r.get("operand")).startswith("%")]
         else:
             hits = [(r, a) for r, a in tagged.get(tag, []) if r.get("operation") == "call_stmt"]
             if o["kind"] == "use":
@@ -940,6 +950,24 @@ def proj_prepare(files, meta, run):
 
     causes = {}
 
+    def source_names(j):
+        """the names an import statement asks its module for (as spelled there); a wildcard asks for everything the module
+        declares AND, the way lian walks the import graph, for everything that module itself imports (under the original names)"""
+        if j["form"] == "wildcard":
+            tp = next(iter((j.get("target") or {}).values()), [None])[0]
+            out_ = set(j["binds"])
+            for k2 in meta["imports"].values():
+                if k2["file"] == tp:
+                    out_ |= source_names(k2) if k2["form"] != "wildcard" else set()
+            return out_
+        if j["form"] == "import":
+            return {j["module"].split(".")[-1]}
+        return {n for n, a in (j.get("names") or [])}
+
+    def source_name_twice(i, name, path):
+        mine = {n for n, a in (i.get("names") or []) if (a or n) == name} if i["form"] != "import" else {i["module"].split(".")[-1]}
+        return any(j is not i and j["file"] == path and (source_names(j) & mine) for j in meta["imports"].values())
+
     def import_kind(path, owner, name, tgt):
         """The import statement that binds `name` in scope `owner` of file `path`, and which of the five import mechanisms that
         fail on the pinned tree it involves (recomputed from the case: the import table of the generated project)."""
@@ -957,9 +985,8 @@ def proj_prepare(files, meta, run):
                     cause = "re-exported-name"
                 elif tgt[0] == "decl" and meta["consts"][tgt[1]]["file"].endswith("__init__.py"):
                     cause = "declared-in-package-__init__"
-                elif any(j is not i and j["file"] == path and j["scope"] == owner
-                         and any((j.get("target") or {}).get(b) == t for b in j["binds"]) for j in meta["imports"].values()):
-                    cause = "target-also-imported-under-another-name"
+                elif source_name_twice(i, name, path):
+                    cause = "same-source-name-imported-twice-in-the-file"
                 causes[(path, owner, name)] = cause
                 return i["kind"] + re
         return None
@@ -1039,6 +1066,29 @@ def proj_prepare(files, meta, run):
         occ[tag] = {"kind": "call" if u.get("call") else "use", "file": path, "name": u["name"], "line": u["line"], "scope": u["scope"],
                     "target": tgt, "owner": st, "site": site_of(path, u["scope"]) + ("(call)" if u.get("call") else ""), "decl": decl,
                     "cause": cause}
+    for k, imp in meta["imports"].items():
+        if meta["scopes"][str(imp["scope"])]["kind"] == "module":
+            continue            # module-level import statements lie in no method: they have no s2space rows
+        for b in imp["binds"]:
+            ev = [o for o in occ.values() if o["file"] == imp["file"] and o["owner"] == imp["scope"] and o["name"] == b and o["target"]]
+            # what the statement binds is literal (module + name); reads of the name in that function are runtime evidence for it
+            t = (imp.get("target") or {}).get(b)
+            lit = None
+            if t and t[1] is None:
+                lit = ("module", t[0])
+            elif t:
+                c_ = proj_resolve(meta, t[0], t[1])
+                lit = ("decl", c_) if c_ else None
+            if ev and lit and tuple(ev[0]["target"]) != lit:
+                prog["faults"].append(f"{imp['file']}: the function-local import of {b} says {lit}, the runtime says {ev[0]['target']}")
+                continue
+            tgt_ = tuple(ev[0]["target"]) if ev else lit
+            if tgt_ is None:
+                continue
+            occ[f"{k}:{b}"] = {"kind": "importstmt", "op": "import_stmt" if imp["form"] == "import" else "from_import_stmt",
+                               "file": imp["file"], "name": b, "line": imp["line"], "scope": imp["scope"], "target": tgt_,
+                               "owner": imp["scope"], "site": site_of(imp["file"], imp["scope"]) + "(the-import-statement-itself)",
+                               "decl": ev[0]["decl"] if ev else "imported-symbol(function-local)", "cause": "function-local-import"}
     prog["occ"] = occ
     return prog
 
@@ -1120,11 +1170,14 @@ def judge_project(prog, views, s2v, unit_of, module_of):
         if view is None:
             res["faults"].append(f"no GIR for {o['file']}")
             continue
-        hits = [(r, a) for r, a in tagged[o["file"]].get(tag, []) if r.get("operation") == "call_stmt"]
-        if o["kind"] == "use":
-            hits = [(r, a) for r, a in hits if r.get("name") == "out" and len(a) == 2 and a[1] == o["name"]]
+        if o["kind"] == "importstmt":
+            hits = [(r, None) for r in view.by_id.values() if r.get("operation") == o["op"] and B.UnitView.decl_name(r) == o["name"]]
         else:
-            hits = [(r, a) for r, a in hits if r.get("name") == o["name"]]
+            hits = [(r, a) for r, a in tagged[o["file"]].get(tag, []) if r.get("operation") == "call_stmt"]
+            if o["kind"] == "use":
+                hits = [(r, a) for r, a in hits if r.get("name") == "out" and len(a) == 2 and a[1] == o["name"]]
+            else:
+                hits = [(r, a) for r, a in hits if r.get("name") == o["name"]]
         hits = [r for r, a in hits if r.get("start_row") is not None and int(r["start_row"]) == o["line"]]
         if len(hits) != 1:
             res["faults"].append(f"{o['file']}: occurrence {tag} ({o['name']} at line {o['line'] + 1}) could not be joined to exactly one GIR row ({len(hits)})")
@@ -1363,7 +1416,10 @@ def main():
     if rp:
         with open(rp) as f:
             case = json.load(f)["case"]
-        jobs.append({"kind": case["kind"], "tag": "replay", "replay": case, "lang": case.get("lang"), "index": 0})
+        if "job" in case and "files" not in case and "template" not in case:
+            jobs.append(dict(case["job"]))            # a batch that died: the very same batch again
+        else:
+            jobs.append({"kind": case["kind"], "tag": "replay", "replay": case, "lang": case.get("lang"), "index": 0})
     else:
         base = rng.randrange(1 << 28)
         npy = 100 if not thorough else 2600
@@ -1383,11 +1439,31 @@ def main():
                          "rseed": base + k})
     pairs = set()
     langs_seen = {}
-    for r in forkpool.run_jobs(run_job, jobs, timeout=600 if not thorough else 1500, tag="c05"):
+    def results():
+        """Every job once; a job that died is run a second time in a fresh fork: a crash that repeats is reported, a crash that
+        does not repeat (seen once under a load average of 150) is recorded in the evidence and the retry's result is used."""
+        died = []
+        for r in forkpool.run_jobs(run_job, jobs, timeout=600 if not thorough else 1500, tag="c05"):
+            if r.status in ("exception", "exit", "signal"):
+                died.append(r)
+            else:
+                yield r
+        if died:
+            first = {id(r.item): r for r in died}
+            for r in forkpool.run_jobs(run_job, [r.item for r in died], timeout=600 if not thorough else 1500, tag="c05retry"):
+                if r.status == "ok":
+                    f = first[id(r.item)]
+                    chk.count("jobs that died once and ran clean when repeated (not reproducible; first error kept in the evidence)")
+                    chk.extra.setdefault("unreproducible_crashes", []).append(
+                        {"job": r.item["tag"], "status": f.status, "error": str(f.value)[-1500:] if f.value else ""})
+                yield r
+
+    for r in results():
         if r.status != "ok":
             if r.status in ("exception", "exit", "signal"):
+                tb = r.value[2][-1800:] if r.status == "exception" else str(r.value)
                 chk.fail(f"analysis-died:{r.item['kind']}:{r.value[0] if r.status == 'exception' else r.status}",
-                         f"lang+P1 over generated programs ended with {r.status}: {str(r.value)[:600]} {r.log_text(800)}",
+                         f"lang+P1 over generated programs ended with {r.status} (twice): {tb} {r.log_text(600)}",
                          {"kind": r.item["kind"], "job": {k: v for k, v in r.item.items() if k != 'replay'}})
             else:
                 chk.note_inconclusive(f"job {r.item['tag']}: {r.status}")
